@@ -397,6 +397,11 @@ def prob_orbit_exact(graph: nx.Graph, orbit: list, n_mean: float = 5, loss: floa
 
     modes = graph.order()
     photons = sum(orbit)
+
+    if len(orbit) > modes:
+        # an orbit with more parts than there are modes contains no sample
+        return 0.0
+
     state = _get_state(graph, n_mean, loss)
 
     click = orbit + [0] * (modes - len(orbit))
